@@ -1,49 +1,52 @@
 //@ unit sax2_prefixmap_w
-//@ props C06
+//@ props C06 C03
 //@ kind W
 //@ def quick NATT=3
 //@ def thorough NATT=5
 //@ cbmc all --unwind 7 --unwinding-assertions
 //@ entry h_sax2_prefixmap
 //@ note fragment of SAX2XMLReaderImpl::startElement (the namespace-declaration pass over the attribute list), verified as a function of its own: complete for attribute lists of <= NATT entries, namespace-prefixes feature on and off
-//@ note stubs: an attribute is a record (prefix kind, name kind, value id); XMLString::equals against XMLUni::fgXMLNSString is the "is xmlns" flag of the record; fDocHandler->startPrefixMapping, fPrefixesStorage->addOrFind, fPrefixes->push, fTempAttrVec and fPrefixCounts are recording sinks
+//@ note stubs: an attribute is a record (prefix id, name id, value id); strings are ids, XMLString::equals compares ids (null and "" alike); fDocHandler->startPrefixMapping, fPrefixesStorage->addOrFind, fPrefixes->push, fTempAttrVec and fPrefixCounts are recording sinks
 #define VERIF_DEFINE_GHOSTS
 #include "verif_prelude.h"
-/* attribute record: prefix: 0 = none (null or empty), 1 = "xmlns", 2 = other; name: 1 = "xmlns", 2 = other */
-struct XMLAttr { int prefix; int name; int nameId; int valueId; }; typedef struct XMLAttr XMLAttr;
+/* strings are ids: 0 = null pointer, ID_EMPTY = "", ID_XMLNS = "xmlns", every other id an ordinary name / value; two strings are
+ * equal iff their ids are equal (XMLString::equals treats null and "" alike) */
+enum { ID_NULL = 0, ID_XMLNS = 1, ID_EMPTY = 3 };
+struct XMLAttr { int prefix; int name; int valueId; }; typedef struct XMLAttr XMLAttr;
 struct { XMLAttr a[NATT]; } ATTS;
 _Bool fNamespacePrefix; int HAVE_HANDLER;
-int EV_N; int EV_PREFIX[NATT]; int EV_URI[NATT];       /* startPrefixMapping events: prefix name id (0 = empty prefix), uri value id */
+int EV_N; int EV_PREFIX[NATT]; int EV_URI[NATT];       /* startPrefixMapping events: prefix id (ID_EMPTY = empty prefix), uri value id */
 int PUSHED_N; int PUSHED[NATT]; int KEPT_N; int KEPT[NATT]; int COUNT_PUSHED; XMLSize_t COUNT_VALUE;
 static const XMLAttr* AL_elementAt(XMLSize_t i) { return &ATTS.a[i]; }
-#define NSID_EMPTY 0
+static bool ST_equals(int a, int b) { return a == b || ((a == ID_NULL || a == ID_EMPTY) && (b == ID_NULL || b == ID_EMPTY)); }
 static void DH_startPrefixMapping(int prefixId, int uriId) { if (EV_N < NATT) { EV_PREFIX[EV_N] = prefixId; EV_URI[EV_N] = uriId; } EV_N++; }
 static unsigned int PS_addOrFind(int prefixId) { return (unsigned int)(prefixId + 1000); }
 static void PX_push(unsigned int id) { if (PUSHED_N < NATT) PUSHED[PUSHED_N] = (int)id; PUSHED_N++; }
 static void TV_add(const XMLAttr *a) { if (KEPT_N < NATT) KEPT[KEPT_N] = (int)(a - ATTS.a); KEPT_N++; }
 static void PC_push(XMLSize_t n) { COUNT_PUSHED++; COUNT_VALUE = n; }
 static void TV_clear(void) { KEPT_N = 0; }
+#define DH_PRESENT (HAVE_HANDLER)
 
 /*@extract src/xercesc/parsers/SAX2XMLReaderImpl.cpp SAX2XMLReaderImpl::startElement
 as SAX2_nsdecl_pass
-fragment XMLSize_t numPrefix = 0; ||| fPrefixCounts->push\(numPrefix\) ;
+fragment XMLSize_t numPrefix = 0; ||| fPrefixCounts->push\(numPrefix\)\s*;
 sig void SAX2_nsdecl_pass(XMLSize_t attrCount)
-sub fTempAttrVec->removeAllElements\(\) => TV_clear()
-sub const XMLCh\*\s+nsPrefix = 0; => int nsPrefix = -1;
-sub const XMLCh\*\s+nsURI\s+= 0; => int nsURI = 0;
-sub attrList\.elementAt\( => AL_elementAt(
-sub const XMLCh\* prefix = tempAttr->getPrefix\(\); => int prefix = tempAttr->prefix;
-sub if\(prefix && \*prefix\) => if (prefix != 0)
-sub XMLString::equals\(prefix, XMLUni::fgXMLNSString\) => (prefix == 1)
-sub XMLString::equals\(tempAttr->getName\(\), XMLUni::fgXMLNSString\) => (tempAttr->name == 1)
-sub nsPrefix = tempAttr->getName\(\); => nsPrefix = tempAttr->nameId;
-sub nsPrefix = XMLUni::fgZeroLenString; => nsPrefix = NSID_EMPTY;
-sub nsURI = tempAttr->getValue\(\); => nsURI = tempAttr->valueId;
-sub fTempAttrVec->addElement\(\(XMLAttr\*\)tempAttr\) => TV_add(tempAttr)
-sub if\(fDocHandler\)\s*fDocHandler->startPrefixMapping\(nsPrefix, nsURI\); => if (HAVE_HANDLER) DH_startPrefixMapping(nsPrefix, nsURI);
-sub fPrefixesStorage->addOrFind\(nsPrefix\) => PS_addOrFind(nsPrefix)
-sub fPrefixes->push\(nPrefixId\) => PX_push(nPrefixId)
-sub fPrefixCounts->push\(numPrefix\) => PC_push(numPrefix)
+sub* fTempAttrVec->removeAllElements\(\) => TV_clear()
+sub* const XMLCh\*\s+(\w+)\s*= => int \1 =
+sub* attrList\.elementAt\( => AL_elementAt(
+sub* (\w+)->getPrefix\(\) => \1->prefix
+sub* (\w+)->getName\(\) => \1->name
+sub* (\w+)->getValue\(\) => \1->valueId
+sub* \*prefix\b => (prefix != ID_EMPTY)
+sub* XMLString::equals\( => ST_equals(
+sub* XMLUni::fgXMLNSString => ID_XMLNS
+sub* XMLUni::fgZeroLenString => ID_EMPTY
+sub* fTempAttrVec->addElement\(\(XMLAttr\*\)\s*(\w+)\) => TV_add(\1)
+sub* if\s*\(fDocHandler\) => if (DH_PRESENT)
+sub* fDocHandler->startPrefixMapping\( => DH_startPrefixMapping(
+sub* fPrefixesStorage->addOrFind\( => PS_addOrFind(
+sub* fPrefixes->push\( => PX_push(
+sub* fPrefixCounts->push\( => PC_push(
 @*/
 
 /* spec (Namespaces in XML 1.0 section 3 + SAX2 ContentHandler.startPrefixMapping): an attribute is a namespace declaration iff
@@ -54,19 +57,20 @@ void h_sax2_prefixmap(void)
   XMLSize_t n;
   VERIF_INPUT(ATTS); VERIF_INPUT(n); VERIF_INPUT(fNamespacePrefix);
   VERIF_ASSUME(n <= NATT);
-  for (int k = 0; k < NATT; k++) VERIF_ASSUME(ATTS.a[k].prefix >= 0 && ATTS.a[k].prefix <= 2 && ATTS.a[k].name >= 1 && ATTS.a[k].name <= 2
-                                             && ATTS.a[k].valueId != 0 && ATTS.a[k].nameId > 0 && ATTS.a[k].nameId < 100000);
+  for (int k = 0; k < NATT; k++) VERIF_ASSUME(ATTS.a[k].prefix >= 0 && ATTS.a[k].prefix <= 5 && ATTS.a[k].prefix != 2 && ATTS.a[k].name >= 1 && ATTS.a[k].name <= 1000 && ATTS.a[k].name != ID_EMPTY
+                                             && ATTS.a[k].valueId != 0);   /* prefix: null, "xmlns", "", two ordinary prefixes; name: "xmlns" or any ordinary name; value: any non-null string */
   HAVE_HANDLER = 1; EV_N = 0; PUSHED_N = 0; KEPT_N = 2; COUNT_PUSHED = 0; verif_thrown = 0;
   SAX2_nsdecl_pass(n);
   VERIF_CANARY("after pass");
   int decls = 0, kept = 0;
   for (int k = 0; k < NATT; k++) if ((XMLSize_t)k < n) {
     const XMLAttr *a = &ATTS.a[k];
-    int isdecl = (a->prefix == 1) || (a->prefix == 0 && a->name == 1);
+    int noprefix = (a->prefix == ID_NULL || a->prefix == ID_EMPTY);
+    int isdecl = (a->prefix == ID_XMLNS) || (noprefix && a->name == ID_XMLNS);
     if (isdecl) {
       if (decls < EV_N && decls < NATT) {
         __CPROVER_assert(EV_URI[decls] == a->valueId, "C06: startPrefixMapping carries the declared namespace name, in document order");
-        __CPROVER_assert(EV_PREFIX[decls] == (a->prefix == 1 ? a->nameId : NSID_EMPTY), "C06: startPrefixMapping carries the declared prefix (empty for xmlns=...)");
+        __CPROVER_assert(EV_PREFIX[decls] == (a->prefix == ID_XMLNS ? a->name : ID_EMPTY), "C06: startPrefixMapping carries the declared prefix (empty for xmlns=...)");
         __CPROVER_assert(PUSHED[decls] == (int)PS_addOrFind(EV_PREFIX[decls]), "C06: the prefix is pushed for the matching endPrefixMapping");
       }
       decls++;
